@@ -13,11 +13,11 @@ func init() {
 
 func checkC16(r *Run) {
 	r.Rule("R1", "phase order: every argument is evaluated in the caller's scope before the function's scope is installed and before any parameter is bound (no evaluation after or in the same loop as a binding)", 1)
-	r.Rule("R2", "pairing: parameter i is bound to the value of argument i (same index object), and indexing the argument list is dominated by an arity test that returns an error", 2)
+	r.Rule("R2", "pairing: parameter i is bound to the value of argument i (same index object), and indexing the argument list is dominated by an arity test that returns an error", 1)
 	r.Rule("R3", "the first exit object ends the block: the block evaluator returns in the iteration that produced it", 1)
 	r.Rule("R4", "exit objects do not escape the call: the value of a user-function call is the returned value, not the return wrapper", 1)
-	r.Rule("R5", "a return inside a loop body leaves the loop and is propagated as a return", 3)
-	r.Rule("R6", "first-class functions: the callee is obtained by evaluating the call's function expression on every call, recognised by a comma-ok assertion before the reflect path; the literal captures Parameters and Block unmodified", 2)
+	r.Rule("R5", "a return inside a loop body leaves the loop and is propagated as a return", 1)
+	r.Rule("R6", "first-class functions: the callee is obtained by evaluating the call's function expression on every call, recognised by a comma-ok assertion before the reflect path; the literal captures Parameters and Block unmodified", 1)
 	r.Rule("R7", "return always produces an exit object: the return evaluator wraps every value (also nil) when the statement is a return", 1)
 	userFunctionCallRuleSSA(r)
 	coreBlockRules(r, "", "R3")
